@@ -404,7 +404,7 @@ func verifModelBinaryWrite(w io.Writer, order binary.ByteOrder, data any) error 
 //@ func (*Dictionary).postingsListInit returns (r)
 //@ tags [C07,C08,C11]
 //@ requires d != nil
-//@ ensures r != nil && r != emptyPostingsList [C11]
+//@ ensures r != nil && r != emptyPostingsList [C02,C07,C08,C11]
 //@ ensures (rv == nil || rv == emptyPostingsList) ==> fresh(r) && r.postings == nil [C07]
 //@ ensures rv != nil && rv != emptyPostingsList ==> r == rv && r.postings == old(rv.postings) [C07]
 //@ ensures r.sb == d.sb && r.except == except && allzero(r, sb, except, postings) [C07,C08,C10]
@@ -496,6 +496,15 @@ func verifModelBinaryWrite(w io.Writer, order binary.ByteOrder, data any) error 
 //@ requires newRoaring != nil && locEncoder != nil
 //@ ensures ok ==> termCardinality == 1 && docNum <= 0x7fffffff && docNum == lastDocNum && lastFreq == 1 && normBits == lastNorm
 //@ ensures ok ==> 0 < normBits && normBits <= 0x7fffffff
+//@ end
+
+// finishing a term: whatever was collected for it is written out (or dropped when empty) and nothing of it is left
+// for the next term - the postings bitmap is empty, both coders are reset, the last-hit scratch values are zero
+//@ func mergeAndPersistInvertedSection$2 returns (err)
+//@ thin
+//@ tags [C06,C08]
+//@ ensures err == nil ==> bmSet(newRoaring) == sEmpty() [C06,C08]
+//@ ensures err == nil ==> lastDocNum == 0 && lastFreq == 0 && lastNorm == 0 [C06,C08]
 //@ end
 
 //@ lemma lemma1HitDiscriminator
@@ -615,6 +624,10 @@ func lemma1HitDiscriminator(docNum, normBits uint64) {
 //@ func (*interim).reset returns (err)
 //@ thin
 //@ tags [C10]
+// the two scratch buffers of the stored-field writer (uncompressed values, snappy output) stay two buffers:
+// the encoder must not write into the memory it reads from
+//@ wf requires base(s.tmp0) == nil || base(s.tmp0) != base(s.tmp1)
+//@ ensures base(s.tmp0) == nil || base(s.tmp0) != base(s.tmp1) [C02,C10]
 //@ ensures clean(s)
 //@ loop 2 invariant len(s.metaBuf.buf) == 0 && s.metaBuf.off == 0
 //@ end
@@ -733,8 +746,8 @@ func lemma1HitDiscriminator(docNum, normBits uint64) {
 //@ tags [C07]
 //@ requires i != nil && i.normBits1Hit == 0 && i.includeFreqNorm && i.freqNormReader != nil && (i.includeLocs ==> i.locReader != nil && i.locReader != i.freqNormReader)
 //@ wf requires i.includeLocs ==> i.locReader.r != nil && i.locReader.r.C >= 0
-//@ ensures err == nil ==> i.currChunk == nChunk && rdLoaded(i) [C07]
-//@ ensures err == nil ==> recsRead(i) == ite(old(i.currChunk) == nChunk && old(rdLoaded(i)), old(recsRead(i)), 0) + 1 [C07]
+//@ ensures err == nil ==> i.currChunk == nChunk && rdLoaded(i) [C06,C07]
+//@ ensures err == nil ==> recsRead(i) == ite(old(i.currChunk) == nChunk && old(rdLoaded(i)), old(recsRead(i)), 0) + 1 [C06,C07]
 //@ modifies PostingsIterator.currChunk[i], PostingsIterator.bytesRead[i], chunkedIntDecoder.curChunkBytes, chunkedIntDecoder.bytesRead, chunkedIntDecoder.r, memUvarintReader.*, alloc, elems(any), ghost recsRead[i]
 //@ end
 
